@@ -31,12 +31,12 @@ RULE = ('cases are histories of 4-12 steps over 1-2 private keys with subkeys (P
         '(step kinds, inner operations, exit mode, key algorithms) sequences')
 TIERS = {"quick": {"runs": 5000, "budget_s": 100}, "thorough": {"runs": 150000, "budget_s": 1500}}
 PROBES = ('x1_fired', 'x1_fired_in_unlock_entry', 'x1_not_reached', 'exit_by_body_exception', 'wrong_passphrase', 'at_rest_flip',
-          'at_rest_flip_subkey', 'reprotect_inside_scope', 'add_subkey_inside_scope', 'nested_unlock', 'foreign_usage255',
+          'at_rest_flip_subkey', 'reprotect_inside_scope', 'add_subkey_inside_scope', 'nested_unlock', 'nested_wrong_passphrase', 'foreign_usage255',
           'foreign_s2k_simple', 'foreign_s2k_salted', 'foreign_gnu_dummy', 'foreign_mixed', 'export_import_protected', 'copy_key',
           'second_unlock_ok', 'graph_objects_walked', 'different_subkey_passphrase', 'passphrase_bytes', 'rsa', 'dsa', 'ecdsa', 'eddsa')
 
 PASSES = ['hunter2', 'pässwörd ☃', 'x' * 120, 'p w', 'QwertyUiop']
-INNER = ['sign', 'sign', 'decrypt', 'certify', 'export', 'derive_pub', 'reprotect', 'add_subkey', 'nested', 'verify_state']
+INNER = ['sign', 'sign', 'decrypt', 'certify', 'export', 'derive_pub', 'reprotect', 'add_subkey', 'nested', 'verify_state', 'nested_wrong']
 
 
 class BodyError(Exception):
@@ -513,6 +513,20 @@ def _body_op(pgpy, ks, K, op, ctx, state):
         with key.unlock(pw):
             _works(pgpy, ks, ctx, 'nested')
         state['nested_done'] = True
+    elif op == 'nested_wrong':
+        # a wrong passphrase presented while the key is held open (a helper that "checks" a passphrase): it must be refused
+        # exactly as on a locked key
+        ctx.probe('nested_wrong_passphrase')
+        ctx.checked()
+        entered = False
+        try:
+            with key.unlock('not the passphrase, nested'):
+                entered = True
+        except Exception:
+            pass
+        if entered:
+            ctx.viol('C06:wrong-passphrase-accepted:nested', 'unlock() with a wrong passphrase entered its scope because the key was already unlocked')
+        state['nested_done'] = True
     elif op == 'verify_state':
         ctx.checked()
         if not key.is_unlocked:
@@ -528,6 +542,8 @@ def _do_scope(pgpy, ks, K, step, ctx, inj):
     pw = 'definitely wrong' if wrong else ks.passphrase
     ex = step['exit']
     inner = list(step['inner'])
+    if 'nested_wrong' in inner:
+        inner = [o for o in inner if o not in ('nested', 'nested_wrong')] + ['nested_wrong']
     if 'nested' in inner:
         # leaving an inner scope locks the key again (that is the property); what the outer body would do
         # afterwards is the caller's problem, so a nested scope is always the last thing a body does
@@ -535,7 +551,7 @@ def _do_scope(pgpy, ks, K, step, ctx, inj):
     if 'reprotect' in inner:
         # protect() wipes the cleartext again as its last act, so nothing private can follow it in a body
         k = inner.index('reprotect')
-        inner = [o for o in inner[:k] if o != 'nested'] + ['reprotect']
+        inner = [o for o in inner[:k] if o not in ('nested', 'nested_wrong')] + ['reprotect']
     if ks.gnu_dummy:
         inner = [o for o in inner if o in ('decrypt', 'export', 'derive_pub', 'verify_state')]
     if ks.sub_pass:
